@@ -8,6 +8,7 @@ import (
 	"fmt"
 	"os"
 	"path/filepath"
+	"time"
 
 	"verifharness/gh"
 )
@@ -20,6 +21,13 @@ func die(f string, a ...interface{}) {
 func main() {
 	if v := os.Getenv("GOPT_REPEAT"); v != "" {
 		fmt.Sscan(v, &gh.Repeat)
+	}
+	if v := os.Getenv("GOPT_TIMEOUT_S"); v != "" {
+		var n int
+		fmt.Sscan(v, &n)
+		if n > 0 {
+			gh.CaseTimeout = time.Duration(n) * time.Second
+		}
 	}
 	if len(os.Args) < 2 {
 		die("usage: gopt families|enum|rand ...")
